@@ -574,6 +574,31 @@ var (
 	nsMap = map[string]string{"x": "urn:x", "y": "urn:y"}
 )
 
+// selectAll performs a guarded Select and drains the iterator. Select itself
+// (cloning the tree) can panic on the trees the builder produces for
+// expressions with variable references.
+func selectAll(ex *xpath.Expr, nav xpath.NodeNavigator, limit int) (o Outcome) {
+	defer func() {
+		if p := recover(); p != nil {
+			k, v := classifyPanic(p)
+			o = Outcome{Kind: k, V: v}
+		}
+	}()
+	return drain(ex.Select(nav), limit)
+}
+
+// selectIter is Select for a handle; when Select itself panics the handle gets
+// an iterator over nothing and the reference outcome (same panic) differs from
+// what such a handle reports, so histories simply do not open handles on it.
+func selectIter(ex *xpath.Expr, nav xpath.NodeNavigator) (it *xpath.NodeIterator) {
+	defer func() {
+		if p := recover(); p != nil {
+			it = nil
+		}
+	}()
+	return ex.Select(nav)
+}
+
 func compile(text string) (ex *xpath.Expr, o Outcome) {
 	defer func() {
 		if p := recover(); p != nil {
